@@ -177,7 +177,7 @@ inductive Res (α : Type) where
   | ok (v : α)
   | err            -- Error::InvalidInput
   | panic
-deriving Repr
+deriving Repr, DecidableEq
 
 def findFrag (frags : List Frag) (id : Nat) : Option Frag := frags.find? (fun f => f.id == id)
 
@@ -245,38 +245,48 @@ def insertAddr (a : Addr) : List Addr → List Addr
 /-- `sorted_row_addrs.sort(); sorted_row_addrs.dedup()` -/
 def sortDedup (l : List Addr) : List Addr := l.foldr insertAddr []
 
-/-- `do_take_rows` on a non-empty address list -/
+/-- one `do_take` of the sorted path: the fragment must exist -/
+def readGroup (frags : List Frag) (stable : Bool) (g : Nat × List Nat) : Res (List Row) :=
+  match findFrag frags g.1 with
+  | none => .err
+  | some f => f.takeRows stable g.2
+
+/-- the offsets the slow path requests from fragment `f` -/
+def groupOffs (sd : List Addr) (f : Frag) : List Nat := (sd.filter (fun a => a.1 == f.id)).map (·.2)
+
+/-- slow path: `fragments.into_iter().filter_map(|f| row_addrs_per_fragment.remove(&f.id))` then `do_take` each -/
+def slowReads (frags : List Frag) (stable : Bool) (sd : List Addr) : List (Res (List Row)) :=
+  frags.filterMap (fun f =>
+    if (groupOffs sd f).isEmpty then none else some (f.takeRows stable (groupOffs sd f)))
+
+/-- slow path: `batches.pop().unwrap()` panics without a batch; otherwise look every requested address up in the `_rowaddr` column -/
+def remap (addrs : List Addr) (bs : List (List Row)) : Res (List Row) :=
+  match bs with
+  | [] => .panic
+  | _ => .ok (addrs.filterMap (fun a => bs.flatten.find? (fun r => r.addr == a)))
+
+def finish (r : Res (List (List Row))) (k : List (List Row) → Res (List Row)) : Res (List Row) :=
+  match r with
+  | .ok bs => k bs
+  | .err => .err
+  | .panic => .panic
+
+/-- `do_take_rows` -/
 def takeAddrs (frags : List Frag) (stable : Bool) (addrs : List Addr) : Res (List Row) :=
   match addrs with
   | [] => .ok []
-  | first :: _ =>
-    match checkAddrs addrs with
+  | first :: rest =>
+    match checkAddrs (first :: rest) with
     | none => .panic
     | some (sorted, contiguous) =>
       if contiguous then
         match findFrag frags first.1 with
         | none => .err
-        | some f => f.readRange stable first.2 ((addrs.getLastD first).2 + 1)
+        | some f => f.readRange stable first.2 ((rest.getLastD first).2 + 1)
       else if sorted then
-        match collect ((runs addrs).map (fun g =>
-                match findFrag frags g.1 with
-                | none => .err
-                | some f => f.takeRows stable g.2)) with
-        | .ok bs => .ok bs.flatten
-        | .err => .err
-        | .panic => .panic
+        finish (collect ((runs (first :: rest)).map (readGroup frags stable))) (fun bs => .ok bs.flatten)
       else
-        let sd := sortDedup addrs
-        let per := frags.filterMap (fun f =>
-          let offs := (sd.filter (fun a => a.1 == f.id)).map (·.2)
-          if offs.isEmpty then none else some (f.takeRows stable offs))
-        match collect per with
-        | .ok [] => .panic                      -- `batches.pop().unwrap()` on no batch
-        | .ok bs =>
-          let one := bs.flatten
-          .ok (addrs.filterMap (fun a => one.find? (fun r => r.addr == a)))
-        | .err => .err
-        | .panic => .panic
+        finish (collect (slowReads frags stable (sortDedup (first :: rest)))) (remap (first :: rest))
 
 /-- `Dataset::take(offsets, projection)` (rows before projection); `none` from the mapper = no return -/
 def take (frags : List Frag) (stable : Bool) (offs : List Nat) : Res (List Row) :=
